@@ -252,6 +252,41 @@ static void op_fb_rbin(int argc, char **argv) {
 	fputc('\n', OUT);
 }
 
+/* fb_wstr <len> <a> <radix> : fb_write_str into a guarded buffer of <len> bytes, followed by fb_size_str (C07: text form of field elements) */
+static void op_fb_wstr(int argc, char **argv) {
+	if (argc < 4) { fprintf(OUT, "bad-args\n"); return; }
+	int len = parse_int(argv[1]), radix = parse_int(argv[3]), caught = 0; size_t sz = 0;
+	static uint8_t buf[4096 + 64];
+	fb_t a, a0;
+	if (len < 0 || len > 4096) { fprintf(OUT, "bad-args\n"); return; }
+	fb_tok(a, argv[2]); fb_copy(a0, a);
+	memset(buf, 0xEE, sizeof(buf));
+	RLC_TRY { fb_write_str((char *)buf + 32, len, a, radix); } RLC_CATCH_ANY { caught = 1; }
+	if (take_err() || caught) fprintf(OUT, "err");
+	else {
+		int n = 0; while (n < len && buf[32 + n] != 0) n++;
+		if (n == len) fprintf(OUT, "NOT-TERMINATED");
+		else { fputc('"', OUT); fwrite(buf + 32, 1, n, OUT); fputc('"', OUT); }
+	}
+	for (int i = 0; i < 32; i++) if (buf[i] != 0xEE || buf[32 + len + i] != 0xEE) { fprintf(OUT, " WROTE-OUTSIDE"); break; }
+	caught = 0;
+	RLC_TRY { sz = fb_size_str(a, radix); } RLC_CATCH_ANY { caught = 1; }
+	if (take_err() || caught) fprintf(OUT, " size=err"); else fprintf(OUT, " size=%lu", (unsigned long)sz);
+	if (fb_cmp(a, a0) != RLC_EQ) fprintf(OUT, " INPUT-A-MODIFIED");
+	fputc('\n', OUT);
+}
+/* fb_rstr <radix> <string> ("" = empty) : fb_read_str into a guarded element */
+static void op_fb_rstr(int argc, char **argv) {
+	if (argc < 3) { fprintf(OUT, "bad-args\n"); return; }
+	int radix = parse_int(argv[1]), caught = 0;
+	const char *str = strcmp(argv[2], "\"\"") ? argv[2] : "";
+	gbuf_t gc; dig_t *pc = g_init(&gc);
+	RLC_TRY { fb_read_str(pc, str, strlen(str), radix); } RLC_CATCH_ANY { caught = 1; }
+	if (take_err() || caught) fprintf(OUT, "err"); else fb_out(pc);
+	g_check(&gc);
+	fputc('\n', OUT);
+}
+
 /* fb_invsim <alias> <n> <a1> ... <an> : simultaneous inversion; alias 1 = results over the inputs */
 static void op_fb_invsim(int argc, char **argv) {
 	if (argc < 3) { fprintf(OUT, "bad-args\n"); return; }
@@ -293,7 +328,7 @@ static void op_fbq(int argc, char **argv) {
 
 const op_t ops_fb[] = {
 	{"fb_param", op_fb_param}, {"fbb", op_fbb}, {"fbu", op_fbu}, {"fb_rdc", op_fb_rdc}, {"fb_muln", op_fb_muln},
-	{"fb_itr", op_fb_itr}, {"fb_exp", op_fb_exp}, {"fb_wbin", op_fb_wbin}, {"fb_rbin", op_fb_rbin},
+	{"fb_itr", op_fb_itr}, {"fb_exp", op_fb_exp}, {"fb_wbin", op_fb_wbin}, {"fb_rbin", op_fb_rbin}, {"fb_wstr", op_fb_wstr}, {"fb_rstr", op_fb_rstr},
 	{"fb_invsim", op_fb_invsim}, {"fbq", op_fbq},
 	{NULL, NULL}
 };
